@@ -232,7 +232,9 @@ def entries_for(rng, schema, root_ty, direction, thorough):
     if reaches_recursive(schema, root_ty):
         return es
     codecs = ["basic"]
-    others = [c for c in CODECS[1:] if c != "toml" or (toml_ok and root_ty[0] == "dc")]
+    # toml codec: dict root only; not for plain classes (its omit_none dialect changes the shape of the generated
+    # to_dict - incremental instead of literal - which the model derives from the fields alone)
+    others = [c for c in CODECS[1:] if c != "toml" or (toml_ok and root_ty[0] == "dc" and kind != "plain")]
     codecs += others if thorough else rng.sample(others, 1)
     for c in codecs:
         es.append({"dir": direction, "via": "codec", "codec": c})
